@@ -131,3 +131,13 @@ package m
 // The address of an identity is set when the identity value is built and never reassigned.
 //@ type PublicAddress
 //@   frozen IP by tryToGenerateAddress, AddressFromStorage, PublicAddressFromKeyPair, AddressFromKeyPair, router.Router.sessionFromPingHeader, router.AnnouncePingHandler.sessionFromAnnouncePingAttachment
+
+// Environment of the gossip handler: the table and the identity's signing call are assumed not to touch frames.
+//@ func RoutingTable.AddRoute
+//@   option trusted
+//@   modifies nothing
+//@   havoc F|m.RoutingTable, F|m.RoutingTableEntry, F|m.SwitchPath, M|
+//@ func Address.SignWithContext
+//@   option trusted
+//@   modifies nothing
+//@   ensures signature: err == nil ==> len(sig) == 64 && fresh(base(sig))
